@@ -25,6 +25,7 @@ import (
 	"regexp"
 	"sort"
 	"strings"
+	"sync"
 
 	"github.com/luthersystems/elps/formatter"
 	"github.com/luthersystems/elps/lisp"
@@ -245,6 +246,18 @@ func handTargets() []target {
 	add("map-callbacks", "(map 'list (lambda (k) (list k (gensym))) (keys (sorted-map 'b 1 'a 2 'c 3)))")
 	add("debug-stack", "(defun ds () (debug-stack)) (ds)")
 	add("fun-in-map", "(sorted-map 'f (lambda (x) x) 'g car)")
+	// instants written with a numeric offset, moved across a daylight-saving change of the zones that use that offset:
+	// what is printed is a function of the text, not of the time zone of the host the process runs on
+	for _, off := range []string{"Z", "+00:00", "+01:00", "+02:00", "-05:00", "-04:00", "-08:00", "+05:30", "+09:00", "+12:45", "+13:45"} {
+		for _, stamp := range []string{"2023-01-15T10:30:00", "2023-07-15T10:30:00.123456789"} {
+			for _, d := range []string{"4400h", "-4400h", "1h"} {
+				id := fmt.Sprintf("time/offset%s/%s/%s", off, stamp[5:7], d)
+				add(id, fmt.Sprintf("(let ([t (time:time-add (time:parse-rfc3339-nano \"%s%s\") (time:parse-duration \"%s\"))]) (list (time:format-rfc3339 t) (time:format-rfc3339-nano t) (time:format-rfc3339 (time:parse-rfc3339 \"%s%s\"))))", stamp, off, d, stamp[:19], off))
+			}
+		}
+	}
+	add("fresh/empty-producers", producersProgram(false))
+	add("fresh/empty-producers-then-grown", producersProgram(true))
 	add("time/format", "(time:format-rfc3339 (time:parse-rfc3339 \"2020-01-02T03:04:05Z\"))")
 	add("math", "(list (math:sqrt 2) (math:ceil 2.5) (math:floor 2.5))")
 	add("base64", "(base64:encode (to-bytes \"hello\"))")
@@ -418,6 +431,33 @@ type activity struct {
 	run func()
 }
 
+// emptyProducers: expressions whose value is an EMPTY (or small) container handed out by a constructor, a decoder or a
+// sequence builtin -- the results a fast path is tempted to share.  The activity below writes into every one of them
+// in place in another runtime; the target prints what a fresh runtime then gets from the same expressions.
+var emptyProducers = []string{
+	`(json:load-string "[]")`, `(json:load-string "{}")`, `(get (json:load-string "{\"a\":[],\"b\":{}}") "a")`, `(get (json:load-string "{\"a\":[],\"b\":{}}") "b")`,
+	`(json:load-bytes (to-bytes "[]"))`, `(json:load-string "[[]]")`, `(json:load-string "\"\"")`,
+	`(vector)`, `(list)`, `(sorted-map)`, `(string:split "" ",")`, `(keys (sorted-map))`, `(make-sequence 0 0)`,
+	`(map 'vector identity '())`, `(map 'list identity (vector))`, `(concat 'vector)`, `(concat 'list)`, `(append 'vector (vector))`, `(append 'list '())`,
+	`(to-bytes "")`, `(reverse 'vector (vector))`, `(reverse 'list '())`, `(select 'vector identity (vector))`, `(reject 'list identity '())`, `(zip 'vector (vector))`,
+	`(slice 'vector (vector 1) 0 0)`, `(slice 'list '(1) 0 0)`, `(stable-sort < (vector))`, `(regexp:regexp-match (regexp:regexp-compile "x") "y")`,
+	`(elpspath:? (vector) '*)`, `(elpspath:? (sorted-map "a" (vector)) "a")`, `(base64:decode "")`, `(cdr '(1))`, `(rest (vector 1))`,
+}
+
+func producersProgram(mutate bool) string {
+	var sb strings.Builder
+	sb.WriteString("(set 'ps (list")
+	for _, p := range emptyProducers {
+		sb.WriteString(" (ignore-errors " + p + ")")
+	}
+	sb.WriteString("))\n")
+	if mutate {
+		sb.WriteString("(map 'list (lambda (p) (ignore-errors (append! p 'residue)) (ignore-errors (assoc! p \"residue\" 1)) (ignore-errors (append-bytes! p \"r\")) (ignore-errors (elpspath:?set! p 0 'residue2))) ps)\n")
+	}
+	sb.WriteString("ps")
+	return sb.String()
+}
+
 func activities() []activity {
 	load := func(std bool, src string) func() {
 		return func() { el.MustEnv(el.Opts{Stdlib: std}).Load(src) }
@@ -434,6 +474,7 @@ func activities() []activity {
 		{"packages", load(false, "(in-package 'zed) (set 'q 1) (export 'q) (in-package 'yy) (defun f () 1)")},
 		{"errors", load(true, "(ignore-errors (car 1)) (ignore-errors (error 'x (sorted-map 'z 1))) (handler-bind ([condition (lambda (&rest e) e)]) (zzz))")},
 		{"format-text", func() { _, _ = formatter.Format([]byte("(defun f (x) ; c\n (+ x 1))\n"), nil) }},
+		{"mutate-empty-results", load(true, producersProgram(true))},
 		{"closures", load(false, "(defun mk (n) (lambda () (set! n (+ n 1)))) (set 'c (mk 1)) (funcall c) (funcall c) (deftype pt (x) x) (new pt 1)")},
 	}
 }
@@ -488,7 +529,15 @@ func runChild(mode string, thorough bool) (map[string]string, error) {
 		return nil, err
 	}
 	cmd := exec.Command(exe)
-	cmd.Env = append(os.Environ(), "MC_C10_CHILD="+mode)
+	childMode := mode
+	var extra []string
+	if strings.HasPrefix(mode, "env:") {
+		// "env:K=V,K=V": the plain child under a different host environment
+		childMode = "plain"
+		extra = strings.Split(strings.TrimPrefix(mode, "env:"), ",")
+	}
+	cmd.Env = append(os.Environ(), "MC_C10_CHILD="+childMode)
+	cmd.Env = append(cmd.Env, extra...)
 	if thorough {
 		cmd.Env = append(cmd.Env, "MC_C10_THOROUGH=1")
 	}
@@ -560,7 +609,7 @@ func run(r *core.Run) {
 	r.Bound("activities", len(acts))
 	r.Bound("history_length", 2)
 	r.Rule("targets: hand-written programs that print, enumerate and compare sorted maps of 1..12 keys in 3 insertion orders through 9 sinks, closures with 1..8 captured bindings, errors with stack traces, gensym, packages, help listings, schema validators, JSON; plus one target per exported stdlib/core callable holding its error messages for 13 argument values in 2 positions. " +
-		"(1) every target after every sequence of <=2 activities (8 kinds) run in other runtimes of this process vs a fresh process; (2) target pairs under every schedule up to the preemption bound vs solo; (3) two fresh processes with different heap layouts, and a pointer-pattern scan of every transcript; (4) R repeated in-process runs (statistical: samples Go's map-iteration seed); (5) for EVERY exported callable the table of calls (q V) and (q V W) over 9 values (empty / homogeneous / heterogeneous lists, string, int, symbol, vector, map, bytes) run three times in a child process with one P and the collector off, where process-wide free lists hand residue back deterministically: later runs vs the first; (6) for EVERY exported callable each single call (q V) and (q V W) over 9 values (one a string malformed in every library syntax) loaded on its own, in a child process where the same call was first made from another file, position and function in another runtime, vs a child process where it was not: value / condition, message, location and trace as the host sees them. Non-trivial = distinct target")
+		"(1) every target after every sequence of <=2 activities (8 kinds) run in other runtimes of this process vs a fresh process; (2) target pairs under every schedule up to the preemption bound vs solo; (3) two fresh processes with different heap layouts, and a pointer-pattern scan of every transcript; (4) R repeated in-process runs (statistical: samples Go's map-iteration seed); (5) for EVERY exported callable the table of calls (q V) and (q V W) over 9 values (empty / homogeneous / heterogeneous lists, string, int, symbol, vector, map, bytes) run three times in a child process with one P and the collector off, where process-wide free lists hand residue back deterministically: later runs vs the first; (6) for EVERY exported callable each single call (q V) and (q V W) over 9 values (one a string malformed in every library syntax) loaded on its own, in a child process where the same call was first made from another file, position and function in another runtime, vs a child process where it was not: value / condition, message, location and trace as the host sees them; (7) every target in fresh processes started under 6 other host environments (time zones on both sides of every offset the time targets use, a Turkish locale, another home directory and user) vs the ambient one. Non-trivial = distinct target")
 	r.Assume("transcript = printed value, stderr, error condition + message + rendered stack trace, step count")
 	r.Assume("oracle 4 (map iteration order) is sampling, not enumeration: the Go runtime's per-iteration random start cannot be owned without patching the runtime; a control (a bare Go map of 12 keys iterated R times must show >= 2 orders) is measured on every run")
 
@@ -587,6 +636,36 @@ func run(r *core.Run) {
 		}
 		if m := pointerish.FindString(a); m != "" {
 			r.Violate("c10", "address-in-output:"+t.ID, kase{t, nil, "address"}, "no memory address or Go-syntax dump in program output", m+" in "+trunc(a, 300), "")
+		}
+	}
+	// (7) host environment: the same targets in fresh processes started under other time zones, locales and home
+	// directories ("in every process"; the statement's only host-dependent builtins are utc-now, time-elapsed, sleep and
+	// file loading, none of which a target uses)
+	r.Bound("host_environments", len(hostEnvs))
+	others := make([]map[string]string, len(hostEnvs))
+	oerrs := make([]error, len(hostEnvs))
+	var hwg sync.WaitGroup
+	for i, he := range hostEnvs {
+		hwg.Add(1)
+		go func(i int, he string) {
+			defer hwg.Done()
+			others[i], oerrs[i] = runChild("env:"+he, r.Thorough())
+		}(i, he)
+	}
+	hwg.Wait()
+	for i, he := range hostEnvs {
+		other, err := others[i], oerrs[i]
+		if err != nil {
+			r.Violate("c10", "harness:child", nil, "child process runs", err.Error(), "")
+			return
+		}
+		for _, t := range ts {
+			a, b := base[t.ID], other[t.ID]
+			r.AddEvals(1)
+			r.AddTransitions(1)
+			if a != b {
+				r.Violate("c10", classOf("hostenv", t, a, b), kase{t, []string{he}, "hostenv"}, "identical transcripts in fresh processes under different host environments (this one: "+he+")", diffAt(a, b), "")
+			}
 		}
 	}
 	// (5) residue of earlier evaluations in process-wide state, decided deterministically in a one-P child
@@ -796,10 +875,28 @@ func schedules(r *core.Run, ts []target, base map[string]string) {
 	})
 }
 
+// hostEnvs: environments a fresh child process is started under (comma-separated K=V).
+var hostEnvs = []string{
+	"TZ=UTC",
+	"TZ=Europe/Paris",
+	"TZ=America/New_York",
+	"TZ=Asia/Kolkata",
+	"TZ=Pacific/Chatham",
+	"TZ=America/Los_Angeles,LANG=tr_TR.UTF-8,LC_ALL=tr_TR.UTF-8,HOME=/nonexistent-home,USER=nobody",
+}
+
 func replay(v core.Violation) (bool, string) {
 	k, err := core.CaseOf[kase](v)
 	if err != nil {
 		return false, err.Error()
+	}
+	if k.Kind == "hostenv" && len(k.History) == 1 {
+		a, err1 := runChild("plain", true)
+		b, err2 := runChild("env:"+k.History[0], true)
+		if err1 != nil || err2 != nil {
+			return false, fmt.Sprint(err1, err2)
+		}
+		return a[k.Target.ID] != b[k.Target.ID], fmt.Sprintf("target %s\nambient environment: %s\nunder %s: %s", k.Target.Src, trunc(a[k.Target.ID], 600), k.History[0], trunc(b[k.Target.ID], 600))
 	}
 	if k.Kind == "residue" {
 		res, err := runChild("residue", true)
